@@ -288,6 +288,9 @@ func (u *Universe) SortOf(t types.Type) Sort {
 	}
 	switch tt := t.(type) {
 	case *types.Named:
+		if tt.Obj().Pkg() == nil && tt.Obj().Name() == "$row" {
+			return ArraySort(SInt, u.SortOf(tt.Underlying().(*types.Slice).Elem()))
+		}
 		if tt.Obj().Pkg() == nil && (tt.Obj().Name() == "$dom" || tt.Obj().Name() == "$val") {
 			mt := tt.Underlying().(*types.Map)
 			if tt.Obj().Name() == "$dom" {
